@@ -472,9 +472,9 @@ def _parse_listing(verb, raw):
                 d = dict(f.split("=", 1) for f in facts.split(";") if f)
                 out.append({"name": name, "kind": d.get("Type", "?"), "size": int(d.get("Size", -1))})
             else:
-                f = line.split(None, 8)
-                kind = "dir" if f[0][0] == "d" else "file" if f[0][0] == "-" else "?"
-                out.append({"name": f[8], "kind": kind, "size": int(f[4])})
+                m = re.match(r"^(\S+) (\S+) (\S+) (\S+) (\d+) (.{12}) (.*)$", line)
+                kind = "dir" if m.group(1)[0] == "d" else "file" if m.group(1)[0] == "-" else "?"
+                out.append({"name": m.group(7), "kind": kind, "size": int(m.group(5))})
         except Exception:
             out.append({"name": "<unparsable:" + line + ">", "kind": "?", "size": -1})
     return out
